@@ -41,7 +41,10 @@ func c06Jobs(tier string) []string {
 		}
 		jobs = append(jobs, "udplen:"+fam, "echo:"+fam)
 	}
-	jobs = append(jobs, "eth2")
+	jobs = append(jobs, "eth2", "ping")
+	for i := 0; i < 4; i++ {
+		jobs = append(jobs, fmt.Sprintf("routes:%d/4", i))
+	}
 	// TCP originators: two-stack runs and raw-peer runs with only the monitor oracle
 	pair := []string{
 		"or=m,bw=40,close=both-shut,mtu=76,aw=96,b=1",
@@ -143,6 +146,29 @@ func c06Run(job, tier string, deadline time.Time) *engine.Result {
 			}
 		}
 		r.Sample(map[string]interface{}{"job": job, "what": "gateway 10.9.9.1 on NIC 1 (MAC ..a1) and on NIC 2 (MAC ..b2); datagrams routed through each in both orders, with and without the gateway announcing itself on the other link first"})
+	case "ping":
+		for _, v6 := range []bool{false, true} {
+			for _, l := range []int{0, 1, 7, 8, 33, 1000} {
+				if m := c06Ping(v6, l); m != "" {
+					report("ping:"+keyOf(fmt.Errorf("%s", m[strings.Index(m, ": ")+2:])), m, map[string]interface{}{"job": job})
+				}
+				r.Execs++
+				r.Transitions += 3
+				r.Nontrivial++
+			}
+		}
+		r.Sample(map[string]interface{}{"job": job, "what": "stack A pings stack B through the bundled ping endpoint, IPv4 and IPv6, payload lengths 0,1,7,8,33,1000"})
+	case "routes":
+		var i, of int
+		fmt.Sscanf(parts[1], "%d/%d", &i, &of)
+		n, msgs := c06Routes(i, of)
+		for _, m := range msgs {
+			report("routes:"+keyOf(fmt.Errorf("%s", m[strings.Index(m, ": ")+2:])), m, map[string]interface{}{"job": job})
+		}
+		r.Execs += int64(n)
+		r.Transitions += int64(n)
+		r.Nontrivial += int64(n)
+		r.Sample(map[string]interface{}{"job": job, "what": "two interfaces; every ordered route table of 1-3 entries from a menu of 4 x 10 socket kinds (UDP/TCP; unbound, bound to an address, to a NIC) x 3 destinations: NIC and source address of the packet against the first qualifying entry"})
 	case "echo":
 		v6 := parts[1] == "6"
 		w := c13NewWorld()
